@@ -68,6 +68,10 @@ type Case struct {
 	Roots    int      `json:"roots,omitempty"`
 	MaxDir   uint64   `json:"max_dir,omitempty"`
 	External bool     `json:"external,omitempty"`
+	// Foreign: the storage roots are not empty when the database is first opened: they hold a file, a
+	// directory with a file in it and an empty directory that are none of fs_db's business (a mount point's
+	// lost+found, somebody's notes). fs_db must leave them alone and must not put content there.
+	Foreign bool `json:"foreign,omitempty"`
 	// CallerMD: every context the caller passes already carries outgoing gRPC metadata of the application
 	CallerMD bool `json:"caller_md,omitempty"`
 	Others   int  `json:"others,omitempty"` // C05: other databases opened in the same process first
@@ -202,6 +206,11 @@ func NewWorld(c Case, r *ev.Result) (*World, error) {
 		return nil, err
 	}
 	w.setCfg()
+	if c.Foreign {
+		if err := w.plantForeign(); err != nil {
+			return nil, err
+		}
+	}
 	if err := w.open(); err != nil {
 		os.RemoveAll(w.Dir)
 		return nil, err
